@@ -75,7 +75,9 @@ def extract(config="K2", repo=REPO, force=False):
     out = facts_path(config, repo)
     if os.path.exists(out) and not force:
         return out
-    lockf = open(os.path.join(WORK, "extract-%s.lock" % config), "w")
+    # one lock per (config, repository path): extractions of different scratch copies may run in parallel
+    lkey = hashlib.sha256(os.path.abspath(repo).encode()).hexdigest()[:8]
+    lockf = open(os.path.join(WORK, "extract-%s-%s.lock" % (config, lkey)), "w")
     fcntl.flock(lockf, fcntl.LOCK_EX)
     try:
         if os.path.exists(out) and not force:
